@@ -47,3 +47,46 @@ def generic_coords(n):
         s = 1 + (i // len(GENERIC)) * 0.37
         out.append((g[0] * s, g[1] * s, g[2] * s))
     return out
+
+
+def symbolic_faces(sx, arities, V, name="f"):
+    """Face list with symbolic vertex ids in [0,V): the solver-side precondition is 'distinct vertices per face, every
+    directed edge at most once, no two faces on the same vertex set' (edge-manifold, consistently oriented); the ids are
+    then concretised, so the feasible paths are exactly the labelled face lists satisfying it.  Vertex-manifoldness
+    (single fan per vertex) is assumed concretely by the caller through oracle.is_manifold."""
+    from vf import symx
+    faces = [[sx.int("%s%d_%d" % (name, k, i), 0, V - 1) for i in range(n)] for k, n in enumerate(arities)]
+    conds = []
+    for F in faces:
+        for i in range(len(F)):
+            for j in range(i + 1, len(F)):
+                conds.append(F[i] != F[j])
+    hes = []
+    for F in faces:
+        n = len(F)
+        for i in range(n):
+            hes.append((F[i], F[(i + 1) % n]))
+    for a in range(len(hes)):
+        for b in range(a + 1, len(hes)):
+            conds.append(symx.Not(symx.And(hes[a][0] == hes[b][0], hes[a][1] == hes[b][1])))
+    if conds:
+        sx.assume(symx.And(*conds))
+    out = [tuple(sx.concrete(v) for v in F) for F in faces]
+    for a in range(len(out)):
+        for b in range(a + 1, len(out)):
+            sx.assume(sorted(out[a]) != sorted(out[b]))
+    return out
+
+
+def symbolic_tets(sx, ncells, V, name="c"):
+    """tetrahedra with symbolic vertex ids: 4 distinct vertices per cell (solver side); conformity (each triangle in at
+    most two cells, no repeated cell) is assumed concretely by the caller"""
+    from vf import symx
+    cells = [[sx.int("%s%d_%d" % (name, k, i), 0, V - 1) for i in range(4)] for k in range(ncells)]
+    conds = []
+    for C in cells:
+        for i in range(4):
+            for j in range(i + 1, 4):
+                conds.append(C[i] != C[j])
+    sx.assume(symx.And(*conds))
+    return [tuple(sx.concrete(v) for v in C) for C in cells]
